@@ -676,21 +676,6 @@ func (g *gen) inject(path int, s gscalar) (v otto.Value, ok bool, how string) {
 	return v, ok, how
 }
 
-// doubles just below 1e21 and just below 1e-6: otto's String() takes the wrong notation there
-// (finding C06-tostring), so it cannot serve as the oracle for the JSON text
-func c06Window(s gscalar) bool {
-	var f float64
-	switch s.kind {
-	case "float64":
-		f = math.Abs(s.f64)
-	case "float32":
-		f = math.Abs(float64(s.f32))
-	default:
-		return false
-	}
-	return (f >= 1e21*(1-1e-9) && f < 1e21) || (f >= 1e-6*(1-1e-9) && f < 1e-6)
-}
-
 func smallPlain(s gscalar) bool {
 	switch s.kind {
 	case "nil", "bool":
@@ -797,7 +782,7 @@ func (g *gen) scalarCases(path int, s gscalar, simple bool) {
 			fmt.Sprintf("%s: ToString() -> %q err=%v panic=%v; String(%s) = %q", head, t, err, p, lit, ostr), "tostring", nontriv)
 	}
 	// MarshalJSON against the in-language JSON.stringify(LIT); strings: the text must parse back to the string
-	if validText && !refl32 && !c06Window(s) {
+	if validText && !refl32 {
 		ojson := ""
 		if s.isNumber() {
 			// 15.12.3: a finite number is serialised as ToString(number)
